@@ -304,9 +304,11 @@ fn check_i32_stats(stats: &ParquetStatistics, op: BinaryOp, val: i32) -> bool {
             if s.min_opt().is_none() || s.max_opt().is_none() {
                 return true;
             }
-            let min = *s.min_opt().unwrap() as i32;
-            let max = *s.max_opt().unwrap() as i32;
-            eval_range_i32(op, val, min, max)
+            // Widen the literal instead of narrowing the bounds: BIGINT
+            // min/max outside the i32 range must not wrap.
+            let min = *s.min_opt().unwrap();
+            let max = *s.max_opt().unwrap();
+            eval_range(op, val as i64, min, max)
         }
         _ => true,
     }
